@@ -111,7 +111,7 @@ def command_jobs(tier, wd, seed):
             pres = prefixes if cmd["member"] in ("flush", "gather_and_close", "until_closed", "cancel", "cancel_group", "stop") \
                 else [prefixes[i % len(prefixes)]]
             for pre in pres:
-                script = [{"c": "connect", "s": 0, "width": 80}, {"c": "idle"}]
+                script = [{"c": "connect", "s": 0, "width": 80, "style": 1 if i % 4 == 3 else 0}, {"c": "idle"}]
                 for text, pcall in pre:
                     script += [{"c": "send", "s": 0, "text": text, "cls": "mutate", "call": pcall}, {"c": "idle"}]
                 script += [{"c": "send", "s": 0, "text": line, "cls": "cmd", "call": call}, {"c": "idle"},
